@@ -707,7 +707,7 @@ func (c *chk) collect(jobs []*genJob, deadline time.Time, thorough bool) {
 			hungList = append(hungList, fmt.Sprintf("L%d/seed%d/conc%d", j.L, j.seed, j.conc))
 			r.Violate("c19-overlap/paillier.GenerateKeyPair/safe-prime-generator-does-not-return:hang",
 				"GenerateKeyPair did not return within the watchdog (GetRandomSafePrimesConcurrent: producers block on primeCh after the consumer left)",
-				map[string]interface{}{"modulusBitLen": j.L, "seed": j.seed, "concurrency(0=default)": j.conc, "watchdog_s": 120})
+				map[string]interface{}{"modulusBitLen": j.L, "seed": j.seed, "concurrency(0=default)": j.conc, "watchdog_s": 540})
 			continue
 		}
 		name := fmt.Sprintf("generated-L%d-seed%d-conc%d", j.L, j.seed, j.conc)
@@ -774,7 +774,7 @@ func Run(r *core.Run) {
 		}
 	}
 	r.Count("generator_calls", int64(len(jobs)))
-	genDeadline := start.Add(125 * time.Second)
+	genDeadline := start.Add(9 * time.Minute) // generous: these keys take milliseconds; only a generator that never returns gets here
 
 	// keys
 	tinyL := []int{6, 12}
